@@ -453,3 +453,22 @@ def r7(ctx, R):
                 if isinstance(t, ast.Attribute) and ast.unparse(t.value) in ('cls', 'type(self)', 'LogToFile') and 'FieldsIO' in ast.unparse(s.value):
                     bad.append(f'{name}: {ast.unparse(s)[:70]}')
     R.check(not bad, 'LogToFile :: no FieldsIO reader/writer kept in class attributes', f'{LOG}:LogToFile', 'instance attribute self.outfile only', bad)
+
+
+@rule('C16', 'C16.R8', 'the block of a rank follows the rank: BlockDecomposition.ranks / localBounds are derived from the settable attribute gRank on EVERY access - a property that stores its result on the object answers for the first rank that asked, so every other rank would get the same block and the rest of the grid would belong to nobody', floor=2)
+def r8(ctx, R):
+    repo = ctx.repo
+    rel = 'pySDC/helpers/blocks.py'
+    ci = repo.cls(rel, 'BlockDecomposition')
+    n = 0
+    for name, fn in ci.methods.items():
+        if not any(ast.unparse(d) in ('property', 'functools.cached_property', 'cached_property', 'cache', 'functools.cache') or ast.unparse(d).endswith('lru_cache') for d in fn.decorator_list):
+            continue
+        n += 1
+        w = f'{rel}:BlockDecomposition.{name}'
+        R.fn(w)
+        cachedeco = [ast.unparse(d) for d in fn.decorator_list if ast.unparse(d) != 'property']
+        stores = [f'line {s.lineno}: {ast.unparse(s)[:70]}' for s in ast.walk(fn) if isinstance(s, (ast.Assign, ast.AugAssign, ast.AnnAssign)) for t in (s.targets if isinstance(s, ast.Assign) else [s.target]) if ast.unparse(t).startswith('self.')]
+        R.check(not stores and not cachedeco, f'BlockDecomposition.{name} :: recomputed from gRank on every access (nothing is stored on the object)', w, 'a plain @property without assignments to self', stores + cachedeco)
+    if n < 2:
+        raise AnalysisError(f'C16.R8: properties ranks / localBounds of BlockDecomposition not found ({n})')
